@@ -123,6 +123,13 @@ func writeFaults(v valueSpec, idx int) {
 // writeFaultsOn injects destination faults at every offset of the output of
 // base (which is never written itself: every write uses a value copy) and
 // returns the fault-free output.
+// fmtLogger builds the text a real logger would build and throws it away.
+type fmtLogger struct{ n int }
+
+func (l *fmtLogger) Printf(format string, vals ...interface{}) {
+	l.n += len(fmt.Sprintf(format, vals...))
+}
+
 // lightErrorValues: set while the values of the state space are judged.
 var lightErrorValues bool
 
@@ -232,6 +239,42 @@ func writeFaultsOn(base *sp.Inst, detail func(what string) map[string]interface{
 					d["error_value"] = ev.name
 					ctx.Violation(sig, d)
 				}
+			}
+		}
+	}
+	// the same faults with SMF.Logger set (what is logged is not what is returned)
+	for _, mode := range []string{"short", "call", "once"} {
+		step := 1
+		if len(out) > 300 {
+			step = 7
+		}
+		for k := 0; k <= len(out); k += step {
+			if mode == "once" && k > 8 {
+				break
+			}
+			in := base.Clone()
+			in.S.Logger = &fmtLogger{}
+			fw := &faultio.FailWriter{At: k, Mode: mode}
+			var err error
+			c := engine.Catch(func() { _, err = in.S.WriteTo(fw) })
+			ctx.Eval()
+			if fw.Fired == 0 {
+				continue
+			}
+			ctx.NontrivialN(1)
+			sig, what := "", ""
+			switch {
+			case c.Panicked:
+				sig, what = c.Sig+":write-fault:logged", "WriteTo with a Logger panicked: "+c.Value
+			case err == nil:
+				sig, what = "write-nil:with-logger:"+mode, fmt.Sprintf("destination failed (mode %s, %d) while SMF.Logger was set, WriteTo returned nil", mode, k)
+			}
+			if sig != "" && ctx.SigCount(sig) < 10 {
+				d := detail(what)
+				d["kind"] = "write-fault"
+				d["fault_at"] = k
+				d["mode"] = mode
+				ctx.Violation(sig, d)
 			}
 		}
 	}
@@ -402,6 +445,19 @@ func genFiles() [][]byte {
 		}
 		f, _ := smfgen.File(shapes[(i*7)%len(shapes)], body, evs)
 		out = append(out, f)
+		if i%5 == 1 {
+			// the same file with a header chunk of 8 and of 11 bytes (the format
+			// allows a longer header; a reader skips what it does not know)
+			for _, extra := range []int{2, 5} {
+				g := append([]byte{}, f[:8]...)
+				g[7] = byte(6 + extra)
+				g = append(g, f[8:14]...)
+				for k := 0; k < extra; k++ {
+					g = append(g, byte(0x10+k))
+				}
+				out = append(out, append(g, f[14:]...))
+			}
+		}
 		if i%4 == 0 {
 			// the same bytes with a header that declares no track at all, or one too many
 			for _, d := range []int{-1, +1} {
